@@ -65,6 +65,65 @@ Lemma tc_new_ax_eq g sh pty x body k : (forall fn args o, body <> FCall fn args 
   tc_form D Sg g sh pty (FNew x body k) = tc_new_ax g sh pty x body k.
 Proof. intros N. destruct body; try reflexivity. destruct (N _ _ _ eq_refl). Qed.
 
+Lemma tc_brsR_cons g bs seen l pay k r :
+  tc_branches_provider D Sg g bs seen (BrCons l pay k r) =
+    (tdo _ <- guard (negb (str_mem l seen)) "label is duplicated";
+     match find_br l bs with
+     | None => TErr "branch does not match the type"
+     | Some bt =>
+       tdo bt' <- unfold_opt D (Some bt);
+       let pay' := set_nty pay bt' in
+       tdo _ <- check_pols [pay'];
+       tdo k' <- tc_form D Sg g (Some pay') (Some bt) k;
+       tdo (r', seen') <- tc_branches_provider D Sg g bs (l :: seen) r;
+       TOk (BrCons l pay' k' r', seen')
+     end).
+Proof. reflexivity. Qed.
+
+Lemma tc_brsL_cons g sh pty bs seen l pay k r :
+  tc_branches_client D Sg g sh pty bs seen (BrCons l pay k r) =
+    (tdo _ <- guard (negb (str_mem l seen)) "label is duplicated";
+     match find_br l bs with
+     | None => TErr "case does not match the type"
+     | Some bt =>
+       tdo _ <- guard (negb (ctx_has g (ident pay))) "variable name already defined";
+       let g1 := aset (ident pay) (Some bt) g in
+       tdo bt' <- unfold_opt D (Some bt);
+       let pay' := set_nty pay bt' in
+       tdo _ <- check_pols [pay'];
+       tdo k' <- tc_form D Sg g1 sh pty k;
+       tdo (r', seen') <- tc_branches_client D Sg g sh pty bs (l :: seen) r;
+       TOk (BrCons l pay' k' r', seen')
+     end).
+Proof. reflexivity. Qed.
+
+Lemma tc_case_eq g shadow pty from brs :
+  tc_form D Sg g shadow pty (FCase from brs) =
+    (if is_provider from shadow then
+      tdo pty' <- unfold_opt D pty;
+      match as_with pty' with
+      | None => type_mismatch pty' "expected a branching type"
+      | Some (bs, m) =>
+        tdo (brs', seen) <- tc_branches_provider D Sg g bs [] brs;
+        tdo _ <- guard (negb (Nat.ltb (length seen) (brs_len bs))) "some labels are not pattern matched";
+        let from' := set_nty from pty' in
+        tdo _ <- check_pols [from'];
+        TOk (FCase from' brs')
+      end
+    else
+      tdo (ct, g1) <- consume from g;
+      tdo ct' <- unfold_opt D ct;
+      match as_plus ct' with
+      | None => type_mismatch ct' "expected a select type"
+      | Some (bs, m) =>
+        tdo (brs', seen) <- tc_branches_client D Sg g1 shadow pty bs [] brs;
+        tdo _ <- guard (negb (Nat.ltb (length seen) (brs_len bs))) "some labels are not pattern matched";
+        let from' := set_nty from ct' in
+        tdo _ <- check_pols [from'];
+        TOk (FCase from' brs')
+      end).
+Proof. reflexivity. Qed.
+
 Lemma call_or_not (body : form) :
   (exists fn args o, body = FCall fn args o) \/ (forall fn args o, body <> FCall fn args o).
 Proof. destruct body; try (right; intros; discriminate). left. eauto. Qed.
